@@ -132,3 +132,19 @@ Inductive exec_all (cfg : config) : list bytes -> nat -> bool -> state -> end_ki
 
 (* foreground use of exec: the last word is not & or &name& *)
 Definition fg_args (args : list bytes) : Prop := args <> [] /\ bg_spec (last args []) = None.
+
+(* the command of a foreground exec can be started, and testscript itself stops it because the
+   context of the run is done (deadline reached while it sleeps, or context done from the start) *)
+Definition exec_times_out (cfg : config) (args : list bytes) (st : state) : bool :=
+  match args with
+  | prog :: rest =>
+      can_start cfg st prog
+      && match fg_end cfg (helper_run rest (s_in st) (s_env st) (s_cd st) (s_fs st)) with
+         | EndTimedOut => true
+         | _ => false
+         end
+  | [] => false
+  end.
+
+Definition exec_name : bytes := (* "exec" *) [x65; x78; x65; x63].
+Definition wait_name : bytes := (* "wait" *) [x77; x61; x69; x74].
